@@ -17,6 +17,7 @@ import Ladybug.Proofs.C03Samples
 import Ladybug.Proofs.C03Month
 import Ladybug.Proofs.C03Mph
 import Ladybug.Proofs.C03Obj
+import Ladybug.Proofs.C03Cull
 
 open Cal
 
@@ -600,10 +601,10 @@ example : (sampleImm.step (Op.mut (Mut.setitem 0 5))).2 = Out.refused Refusal.at
     bound on its length) in which every culling step on a continuous collection is grid-faithful; then
     the slot is still not stale, and every read answers exactly as on the object a constructor call
     would build from the final public state – the hidden `_datetimes` slot never shows.
-    (Grid-faithfulness – the datetimes surviving `convert_to_culled_timestep(ts)` are the datetimes of
-    the period at `ts` – is proved for the unchanged timestep in `C03_cull_same_timestep`; for a
-    timestep dividing the current one it is evaluated on samples and compared with the code on every
-    run, not proved: it is a statement about the enumeration of the period, C04's subject.) -/
+    (Grid-faithfulness – the datetimes surviving an ACCEPTED `convert_to_culled_timestep(ts)`, i.e. one
+    whose `ts` divides the current timestep, are the datetimes of the period at `ts` – is proved in
+    `C03_cull_dividing_timestep`; `C03_history_refines_fresh_all` below discharges the hypothesis for every
+    history over a well-formed period.) -/
 theorem C03_history_refines_fresh (o : Obj) (hinv : Inv o) (ops : List Op) (hf : FaithfulHist o ops)
     (r : Read) :
     Inv (o.after ops) ∧ (o.run ops).1 = o.after ops ∧
@@ -630,7 +631,11 @@ theorem step_kind (o : Obj) (op : Op) : (o.step op).1.kind = o.kind := by
       | cull ts =>
         by_cases hd : o.kind = .daily
         · simp [hd]
-        · by_cases hc : 0 ≤ ts ∧ ts.toNat ∈ Gen.Ap.validTimesteps <;> simp [hd, hc]
+        · by_cases hc : 0 ≤ ts ∧ ts.toNat ∈ Gen.Ap.validTimesteps
+          · by_cases hn : o.kind = .cont ∧ o.ap.timestep % ts.toNat ≠ 0
+            · simp [hd, hc, hn]
+            · simp [hd, hc, hn]
+          · simp [hd, hc]
 
 theorem faithful_of_not_cont (ops : List Op) : ∀ o : Obj, o.kind ≠ .cont → FaithfulHist o ops := by
   induction ops with
@@ -658,7 +663,7 @@ theorem C03_history_refines_fresh_disc (p : Pub) (hk : p.kind ≠ .cont) (ops : 
     datetimes). -/
 theorem C03_cull_same_timestep (o : Obj) (hwf : o.ap.WF) (hinv : Inv o) :
     Faithful o (.mut (.cull (o.ap.timestep : Int))) := by
-  intro hk _ _
+  intro hk _ _ _
   have hds : o.datetimes = contDts o.ap := by
     unfold Obj.datetimes
     cases hs : o.dts with
@@ -680,4 +685,171 @@ theorem C03_cull_same_timestep (o : Obj) (hwf : o.ap.WF) (hinv : Inv o) :
   cullDts 1 (contDts ⟨12, 30, 0, 1, 2, 23, 2, true⟩) = contDts ⟨12, 30, 0, 1, 2, 23, 1, true⟩ ∧
   cullDts 5 (contDts ⟨2, 28, 0, 3, 1, 23, 60, true⟩) = contDts ⟨2, 28, 0, 3, 1, 23, 5, true⟩
 
+/-! ### Round 4: sibling classes, dividing culls, branch theorems -/
+
+/-- **Culling to a dividing timestep is grid-faithful**: for a well-formed period at `timestep` and a
+    valid `ts` that divides it, the datetimes that survive `convert_to_culled_timestep(ts)` are exactly
+    the datetimes of the same period at `ts`, in the same order (any hour window; wrapping or not; leap
+    or not).  (Generalises `C03_cull_same_timestep`.) -/
+theorem C03_cull_dividing_timestep (ap : AP) (hwf : ap.WF) (ts : Nat) (hts : ts ∈ Gen.Ap.validTimesteps)
+    (hdiv : ts ∣ ap.timestep) :
+    cullDts ts (contDts ap) = contDts { ap with timestep := ts } :=
+  cull_contDts ap hwf ts hts (step_dvd_of_timestep_dvd _ hwf.2.2 _ hts hdiv)
+
+example : (2 : Nat) ∣ (⟨12, 30, 0, 1, 2, 23, 4, true⟩ : AP).timestep ∧ (⟨12, 30, 0, 1, 2, 23, 4, true⟩ : AP).WF := by
+  decide
+
+theorem faithful_all (o : Obj) (hwf : o.ap.WF) (hinv : Inv o) (op : Op) : Faithful o op := by
+  rcases op with r | m
+  · trivial
+  · cases m with
+    | cull ts =>
+      intro hk _ hc hdiv
+      have hds : o.datetimes = contDts o.ap := by
+        unfold Obj.datetimes
+        cases hs : o.dts with
+        | none => rfl
+        | some d => exact hinv hk d hs
+      rw [hds]
+      exact C03_cull_dividing_timestep o.ap hwf ts.toNat hc.2 (Nat.dvd_of_mod_eq_zero hdiv)
+    | setvals v => trivial
+    | setitem i v => trivial
+
+theorem step_wf (o : Obj) (op : Op) (hwf : o.ap.WF) : (o.step op).1.ap.WF := by
+  rcases op with r | m
+  · show (o.read r).1.ap.WF
+    rw [(read_same o r).2.2.1]; exact hwf
+  · show (o.mutate m).1.ap.WF
+    unfold Obj.mutate
+    by_cases hi : o.imm = true
+    · simpa [hi] using hwf
+    · simp only [hi]
+      cases m with
+      | setvals v =>
+        cases v with
+        | none => exact hwf
+        | some v => by_cases hc : v.length = o.expectedLen ∧ (o.kind = .cont ∨ v ≠ []) <;> simpa [hc] using hwf
+      | setitem i v =>
+        by_cases hc : 0 ≤ (if i < 0 then i + (o.vals.length : Int) else i) ∧
+            (if i < 0 then i + (o.vals.length : Int) else i) < (o.vals.length : Int) <;> simpa [hc] using hwf
+      | cull ts =>
+        by_cases hd : o.kind = .daily
+        · simpa [hd] using hwf
+        · by_cases hc : 0 ≤ ts ∧ ts.toNat ∈ Gen.Ap.validTimesteps
+          · simp only [hd, hc, and_self, ↓reduceIte]
+            by_cases hn : o.kind = .cont ∧ o.ap.timestep % ts.toNat ≠ 0
+            · rw [if_pos hn]; exact hwf
+            · rw [if_neg hn]; exact atTimestep_wf o.ap hwf _ hc.2
+          · simpa [hd, hc] using hwf
+
+theorem faithfulHist_all (ops : List Op) : ∀ o : Obj, o.ap.WF → Inv o → FaithfulHist o ops := by
+  induction ops with
+  | nil => intro _ _ _; trivial
+  | cons op rest ih =>
+    intro o hwf hinv
+    have hf := faithful_all o hwf hinv op
+    exact ⟨hf, ih _ (step_wf o op hwf) (inv_step o op hinv hf)⟩
+
+/-- **Every history refines the fresh object – all classes, no condition on the history.**  Start from a
+    freshly constructed collection of any class (continuous, discontinuous, daily; mutable or immutable)
+    over a well-formed period; run ANY history of reads, `values =`, `coll[i] =`,
+    `convert_to_culled_timestep` and refused operations (no bound on its length); then every read answers
+    exactly as on the object a constructor call would build from the final public state – the lazily
+    filled `_datetimes` slot of a continuous collection never shows.  The grid-faithfulness hypothesis of
+    `C03_history_refines_fresh` is discharged: a continuous collection accepts a culling step only when the
+    new timestep divides its own (fix 2b7dc5a; a non-dividing one is refused, see
+    `C03_cull_nondividing_refused`), and for a dividing one `C03_cull_dividing_timestep` applies. -/
+theorem C03_history_refines_fresh_all (p : Pub) (hwf : p.ap.WF) (ops : List Op) (r : Read) :
+    ((p.fresh.after ops).read r).2 = ((p.fresh.after ops).pub.fresh.read r).2 :=
+  (C03_history_refines_fresh p.fresh (inv_fresh p) ops
+    (faithfulHist_all ops p.fresh hwf (inv_fresh p)) r).2.2
+
+/-- **A continuous collection refuses a culling step whose timestep does not divide its own** (the
+    behaviour of fix 2b7dc5a): the call answers with the assertion error class and the object is
+    unchanged – so no continuous collection ever holds fewer values than its period has steps. -/
+theorem C03_cull_nondividing_refused (o : Obj) (hk : o.kind = .cont) (hi : o.imm = false) (ts : Int)
+    (hc : 0 ≤ ts ∧ ts.toNat ∈ Gen.Ap.validTimesteps) (hn : o.ap.timestep % ts.toNat ≠ 0) :
+    o.step (.mut (.cull ts)) = (o, .refused .assert) := by
+  show o.mutate (.cull ts) = _
+  unfold Obj.mutate
+  have hd : ¬ o.kind = .daily := by rw [hk]; decide
+  simp only [hi, hd, hc, and_self, ↓reduceIte, Bool.false_eq_true]
+  rw [if_pos ⟨hk, hn⟩]
+
+/-- a continuous collection at 4 steps per hour, culled to 2 and then to 1 (non-vacuity) -/
+def sampleCont : Pub :=
+  ⟨.cont, false, ⟨6, 21, 0, 6, 21, 23, 4, false⟩, (List.range 96).map (fun (n : Nat) => ((n : Int) : Rat)), [], []⟩
+
+example : sampleCont.ap.WF ∧ (sampleCont.fresh.step (.mut (.cull 3))).1.ap.timestep = 4 ∧
+    (sampleCont.fresh.step (.mut (.cull 2))).1.ap.timestep = 2 ∧ sampleCont.ap.timestep % (3 : Int).toNat ≠ 0 := by
+  decide
+
+/-- **Immutable and mutable twins answer alike** (kind e): the answer of every read is the same whether
+    the collection is the mutable class or its immutable twin; and the immutable twin refuses every
+    mutator, unchanged. -/
+theorem C03_twins_agree (o : Obj) (b : Bool) (r : Read) (m : Mut) :
+    (({ o with imm := b } : Obj).read r).2 = (o.read r).2 ∧
+    ({ o with imm := true } : Obj).mutate m = ({ o with imm := true }, .refused .attr) := by
+  constructor
+  · rw [read_out, read_out]; rfl
+  · simp [Obj.mutate]
+
+/-- **Sibling classes answer alike** (kind e): on a continuous collection (whole-day period, as many
+    values as steps, slot not stale) the slice-based `group_by_day` / `group_by_month` and the inherited
+    `group_by_month_per_hour` return exactly the dictionaries of its `to_discontinuous()` image, which
+    uses the datetime-keyed algorithms of the parent class. -/
+theorem C03_siblings_agree (o : Obj) (hk : o.kind = .cont) (hwf : o.ap.WF) (h0 : o.ap.st_hour = 0)
+    (h23 : o.ap.end_hour = 23) (hlen : o.vals.length = o.ap.len) (hinv : Inv o) :
+    (o.read (.group .day)).2 = (o.read (.twin .day)).2 ∧
+    (o.read (.group .month)).2 = (o.read (.twin .month)).2 ∧
+    (o.read (.group .mph)).2 = (o.read (.twin .mph)).2 := by
+  have hds : o.datetimes = contDts o.ap := by
+    unfold Obj.datetimes
+    cases hs : o.dts with
+    | none => rfl
+    | some d => exact hinv hk d hs
+  have hdt := datetimes_eq_contDts o.ap hwf
+  have hday := C03_cont_eq_keyed_day o.ap hwf h0 h23 (contDts o.ap) hdt o.vals hlen
+  have hmon := C03_cont_eq_keyed_month o.ap hwf h0 h23 (contDts o.ap) hdt o.vals hlen
+  refine ⟨?_, ?_, ?_⟩
+  · rw [read_out, read_out, hk, hds]
+    simp [observe, dayGroups, hday]
+  · rw [read_out, read_out, hk, hds]
+    simp [observe, monthGroups, hmon]
+  · rw [read_out, read_out, hk, hds]
+    simp [observe, mphGroups]
+
 end Grp
+
+namespace Stats
+
+/-- **The two branches of `_percentile`** (kind j).  `f == c` branch: when the rank `(n − 1)·p/100` is a
+    whole number `k`, the answer is the order statistic `k` itself (no interpolation).  Else branch:
+    for a rank strictly between `k` and `k + 1` it is the weighted mean of the order statistics `k` and
+    `k + 1` with the weights `k + 1 − rank` and `rank − k`. -/
+theorem C03_percentile_branches (vals : List Rat) (hne : vals ≠ []) (p : Rat) (h0 : 0 ≤ p) (h1 : p ≤ 100)
+    (k : Nat) :
+    (rank vals p = ((k : Nat) : Rat) → percentile vals p = .ok (ordStat vals k)) ∧
+    (((k : Nat) : Rat) < rank vals p → rank vals p < ((k : Nat) : Rat) + 1 →
+      percentile vals p = .ok (ordStat vals k * (((k : Nat) : Rat) + 1 - rank vals p) +
+        ordStat vals (k + 1) * (rank vals p - ((k : Nat) : Rat)))) := by
+  constructor
+  · intro hk
+    rw [percentile_eq_interp vals hne p h0 h1, hk, interp_natCast]
+  · intro hlo hhi
+    have hfl : (rank vals p).floor = (k : Int) := by
+      have a := Rat.le_floor_iff.mpr (show (((k : Int)) : Rat) ≤ rank vals p by push_cast; exact le_of_lt hlo)
+      have b := Rat.floor_lt_iff.mpr (show rank vals p < ((((k : Int) + 1 : Int)) : Rat) by push_cast; exact hhi)
+      omega
+    rw [percentile_eq_interp vals hne p h0 h1]
+    unfold interp
+    rw [hfl]
+    simp only [Int.toNat_natCast]
+    congr 1
+    push_cast
+    ring
+
+-- evaluated (a test, not a theorem): rank 3/4 lies strictly between 0 and 1; rank 3 is on a value
+#guard percentile [4, 1, 2, 3] 25 = .ok (7 / 4) ∧ rank [4, 1, 2, 3] 25 = 3 / 4 ∧ rank [4, 1, 2, 3] 100 = 3
+
+end Stats
